@@ -612,7 +612,13 @@ func (t *StringTree) NewScanner(key string) *StringCursor {
 		n = child
 	}
 	ln := n.(*stringLeafNode)
-	return newStringCursor(ln, stringSearchGreaterThanOrEqualTo(key, ln.runts))
+	index := stringSearchGreaterThanOrEqualTo(key, ln.runts)
+	if index < len(ln.runts) && ln.runts[index] < key {
+		// The search never returns len(ln.runts); when even the final key of
+		// this leaf is smaller than key, start after it.
+		index++
+	}
+	return newStringCursor(ln, index)
 }
 
 // StringCursor is used to enumerate key-value pairs from the tree in
